@@ -170,6 +170,19 @@ func jsonClass(cls string) (json.RawMessage, bool) {
 		return json.RawMessage(`"\ud800"`), true
 	case "long_str":
 		return jstr(strings.Repeat("x", 300)), true
+	// shapes of an entry of m.room.third_party_invite public_keys
+	case "pk_short":
+		return json.RawMessage(`{"public_key":"AAAA","key_validity_url":"https://idserver/valid"}`), true
+	case "pk_len33":
+		return json.RawMessage(`{"public_key":"AAAAAAAAAAAAAAAAAAAAAAAAAAAAAAAAAAAAAAAAAAAA"}`), true
+	case "pk_empty":
+		return json.RawMessage(`{"public_key":""}`), true
+	case "pk_badb64":
+		return json.RawMessage(`{"public_key":"!!"}`), true
+	case "pk_number":
+		return json.RawMessage(`{"public_key":5}`), true
+	case "pk_missing":
+		return json.RawMessage(`{"key_validity_url":"https://idserver/valid"}`), true
 	}
 	if strings.HasPrefix(cls, "v:") {
 		return jstr(cls[2:]), true
